@@ -528,6 +528,8 @@ class Translator:
         t = ' '.join(cxx.replace('::', ' :: ').split()).replace(' :: ', '::')
         if t in self.typemap:
             return self.typemap[t]
+        if t not in self.classes and '::' in t and t.split('::')[-1] in self.classes:
+            t = t.split('::')[-1]
         if t in self.classes:
             ci = self.classes[t]
             return ci.cname if ci.by_value else 'struct ' + ci.cname
